@@ -3,6 +3,7 @@ mod engine;
 mod model;
 mod probes;
 mod props;
+mod rsys;
 mod sys;
 mod vsys;
 
@@ -18,6 +19,15 @@ fn main() {
     let args: Vec<String> = std::env::args().collect();
     if args.len() < 2 {
         usage();
+    }
+    if args[1] == "__real" {
+        rsys::child_main(&args[2]);
+    }
+    if args[1] == "rsh" {
+        // debugging aid: run a script on the real OS in a scratch directory
+        let r = rsys::run(&args[2], &[]).unwrap();
+        println!("status={}\n--- stdout\n{}--- stderr\n{}--- tree {:?}", r.status, r.stdout, r.stderr, r.tree);
+        return;
     }
     if args[1] == "sh" {
         // debugging aid: vcheck sh '<script>' [seed]
